@@ -122,7 +122,12 @@ fn one_real(ctx: &mut Ctx, c: &Case, md: usize) {
     let nodes = build_nodes(c);
     let h = H(n - 1, &nodes);
     for pol in [Pol::Hash, Pol::Ptr, Pol::None] {
-        if pol == Pol::None && unfolded(c)[n - 1] > 5000 {
+        // a policy with unkeyed nodes (NoSharing; MaxSharing above a witness) walks the unfolding
+        let cls = classes(c, &nodes, pol);
+        let mut probe = RefWalk::new(c, &cls, false, 5000);
+        probe.visit(n - 1);
+        if probe.over {
+            ctx.count(&format!("skipped:real-{}-walk-longer-than-5000", pol.name()));
             continue;
         }
         let res = ctx::catch(|| match pol {
@@ -137,7 +142,6 @@ fn one_real(ctx: &mut Ctx, c: &Case, md: usize) {
                 continue;
             }
         };
-        let cls = classes(c, &nodes, pol);
         let fl = Flags { congruent: congruent(c, &cls), root_fresh: root_fresh(&cls) };
         let shared = format!("{} rf={} cg={}", real.shared as u8, fl.root_fresh as u8, fl.congruent as u8);
         if n <= 8 {
